@@ -388,6 +388,9 @@ func propC11(w *World, r *Report) {
 	linkObligations(w, r, propC10, "C10", func(o *Obligation) bool {
 		return strings.HasPrefix(o.Construct, "the writer is closed before its file is renamed") || strings.HasPrefix(o.Construct, "FileWriter.Close compresses")
 	}, "H1")
+	// trigger-frames shapes which files are produced: a recording starts only on the frame that completes trigger-frames
+	// motion frames counted since the previous recording ended (the counter rules of C04)
+	linkObligations(w, r, propC04, "C04", func(o *Obligation) bool { return o.Rule == "C04.S3" || o.Rule == "C04.S4" }, "H3")
 	// every frame of the stream reaches the files: the parsers reject exactly the frames with a zero pixel outside the
 	// border (a valid frame that is rejected is missing from every recording)
 	checkParsers(w, r, "H5")
